@@ -7,6 +7,7 @@ import (
 	"crypto/ecdsa"
 	"crypto/elliptic"
 	"crypto/rand"
+	"github.com/pion/transport/v4/vnet"
 	"sync"
 	"testing"
 
@@ -42,11 +43,17 @@ func vSharedCert() Certificate {
 type vAPIOpts struct {
 	media   func(m *MediaEngine) error // nil: RegisterDefaultCodecs
 	setting func(s *SettingEngine)
+	// virtualNet: give the connection a virtual network without interfaces (for harnesses that never connect)
+	virtualNet bool
 }
 
 // vNewAPI builds an API with no interceptors (no tickers, no background RTCP),
 // no mDNS, and no usable network interface (gathering completes at once with no
 // candidates).
+// vUseVNet is switched on by the harnesses that run under the controlled scheduler (init in their common
+// file); harnesses that never connect ask for it per call (vAPIOpts.virtualNet).
+var vUseVNet bool
+
 func vNewAPI(tb testing.TB, o vAPIOpts) *API {
 	tb.Helper()
 	m := &MediaEngine{}
@@ -61,6 +68,14 @@ func vNewAPI(tb testing.TB, o vAPIOpts) *API {
 	s.SetInterfaceFilter(func(string) bool { return false })
 	s.SetIncludeLoopbackCandidate(false)
 	vDisableMDNS(&s)
+	if vUseVNet || o.virtualNet {
+		// no interface of the machine is used anyway (filter above); a virtual network without interfaces
+		// keeps the ICE agent from asking the kernel for the interface list at every PeerConnection, which
+		// under load fails now and then ("netlinkrib: value too large for defined data type")
+		if n, err := vnet.NewNet(&vnet.NetConfig{}); err == nil {
+			s.SetNet(n)
+		}
+	}
 	if o.setting != nil {
 		o.setting(&s)
 	}
